@@ -14,14 +14,15 @@ git checkout -q --detach "$(git -C /repo rev-parse HEAD)" 2>/dev/null
 for X in A B; do Y=$X; [ -n "${ROUND2:-}" ] && { [ $X = A ] && Y=C || Y=D; }
   [ "${ROUND:-}" = 3 ] && { [ $X = A ] && Y=E || Y=F; }
   [ "${ROUND:-}" = 4 ] && { [ $X = A ] && Y=G || Y=H; }
+  [ "${ROUND:-}" = 5 ] && { [ $X = A ] && Y=I || Y=J; }
   D="$SRC/out/$X"; [ -f "$D/patch.diff" ] || continue
-  OUT=/verif/seeded/$ID-$Y; LOG=$(mktemp)
+  OUT=/verif/seeded/$ID-$Y; LOG=$(mktemp); PATCH=$(mktemp)
   git checkout -q -- . ; rm -f tests/demo.rs
   if ! git apply "$D/patch.diff" 2>>"$LOG"; then
     if ! git apply -3 "$D/patch.diff" 2>>"$LOG"; then echo "$ID-$X: patch does not apply"; cat "$LOG"; continue; fi
     git reset -q
   fi
-  git diff -- src > /tmp/confirm_patch.diff
+  git diff -- src > "$PATCH"
   builds=false; suite=false; demo_fails=false; demo_passes=false
   if cargo build --offline --features cli >>"$LOG" 2>&1; then builds=true; fi
   if $builds && cargo test --offline --workspace >>"$LOG" 2>&1; then suite=true; fi
@@ -35,7 +36,7 @@ for X in A B; do Y=$X; [ -n "${ROUND2:-}" ] && { [ $X = A ] && Y=C || Y=D; }
   git checkout -q -- .
   echo "$ID-$Y: builds=$builds suite_passes=$suite demo_fails_with_change=$demo_fails demo_passes_without=$demo_passes"
   if $builds && $suite && $demo_fails && $demo_passes; then
-    mkdir -p "$OUT"; cp /tmp/confirm_patch.diff "$OUT/patch.diff"; cp "$D/demo.rs" "$OUT/demo.rs"
+    mkdir -p "$OUT"; cp "$PATCH" "$OUT/patch.diff"; cp "$D/demo.rs" "$OUT/demo.rs"
     [ -f "$D/demo.sh" ] && cp "$D/demo.sh" "$OUT/demo.sh"
     python3 - "$D/meta.json" "$OUT/meta.json" "$ID" <<'PY'
 import json,sys
@@ -53,5 +54,5 @@ PY
   else
     tail -30 "$LOG"
   fi
-  rm -f "$LOG"
+  rm -f "$LOG" "$PATCH"
 done
